@@ -5,6 +5,8 @@ ROOT = os.path.dirname(os.path.dirname(os.path.abspath(__file__)))
 sys.path.insert(0, os.path.join(ROOT, "tools"))
 from props import PROPS, NOT_APPLICABLE
 
+import subprocess
+HOOK_COMMITS = subprocess.run(["git", "-C", "/repo", "log", "--format=%H", "--grep=^hook:"], stdout=subprocess.PIPE, text=True).stdout.split()
 checks = []
 for pid in sorted(PROPS):
     c = PROPS[pid]
@@ -28,9 +30,9 @@ m = {
     "setup_cmd": "./tools/setup.sh",
     "hooks": {
         "guard": "kkawakam_rustyline_verif",
-        "enable": "RUSTFLAGS=--cfg kkawakam_rustyline_verif (set by tools/orchestrate.py for the harness build; no hook is currently needed, every observation point is public API)",
+        "enable": "RUSTFLAGS=--cfg kkawakam_rustyline_verif (set by tools/orchestrate.py and tools/setup.sh for every harness build); the one hook re-exports layout::{Layout, Position} so that LineBuffer::move_to_line_up/down can be called from the harness",
         "baseline_off_cmd": "cd /repo && cargo test --workspace --no-fail-fast --offline",
-        "source_commits": [],
+        "source_commits": HOOK_COMMITS,
         "add_only": True,
     },
     "engines": [
